@@ -284,7 +284,7 @@ def label_with_edge(label, edge, gf=None):
 
 
 def encode_brackets(mts, layout='tight', empty_root=False, emptypos=False, trailing_newline=True,
-                    gf=None, lead=''):
+                    gf=None, lead='', between=''):
     """gf: separator string -> constituent labels are written as LABEL<sep>EDGE (for gf_split)."""
     a, b, c, d, e, f = LAYOUTS[layout]
     out = [lead]
@@ -301,6 +301,7 @@ def encode_brackets(mts, layout='tight', empty_root=False, emptypos=False, trail
                 s += (b if i == 0 else e) + rec(k, False)
             return s + d + ')'
         out.append(rec(mt.root, True))
+        out.append(between)     # text between bracket groups (a surplus closing bracket, stray words): skipped by readers
         if si < len(mts) - 1 or trailing_newline:
             out.append(f if si < len(mts) - 1 else '\n')
     return ''.join(out)
@@ -441,7 +442,9 @@ def encode_tigerxml(mts, nt_order='post', edge_order='std', attr_order='std', se
                    '</annotation></head>\n')
     out.append('<body>\n')
     for mt in mts:
-        sid = {'plain': '%d', 's': 's%d', 'under': 's1_%d'}[id_style] % mt.sid
+        # 'suffix' / 'ext': ids that contain their number but do not end in it (s42a, doc3_s57.rev): the reader
+        # takes the LAST number in the id
+        sid = {'plain': '%d', 's': 's%d', 'under': 's1_%d', 'suffix': 's%da', 'ext': 'doc3_s%d.rev'}[id_style] % mt.sid
         pref = '' if id_style == 'plain' else sid + '_'
         num = standard_numbering(mt.root)
         root = mt.root
